@@ -261,6 +261,16 @@ def priced(items):
     bonus_total += bonus
     return total
 
+API_TOKEN = "tok-123"
+
+def login(user, password):
+    secret = password[::-1]                     # variables whose NAMES look like credentials: the host goes on using them
+    token = "%s:%s" % (user, secret)
+    api_key = len(token)
+    credential = {"user": user, "passwd": password}
+    ok = password == "hunter2" and credential["passwd"] == password
+    return (ok, token, api_key, API_TOKEN, sorted(credential.items()))
+
 def fib(n):
     w = Weird(n)
     if n < 2:
@@ -294,6 +304,7 @@ def main():
     out.append(handle(sess, walked))
     out.append((sess.accessed, walked.walks))
     out.append(draws())
+    out.append(login("ann", "hunter2"))
     out.append(counter())
     out.append([Shape(i).area() for i in range(2)])
     ts = [threading.Thread(target=worker, args=(out, k)) for k in range(4)]
